@@ -98,3 +98,11 @@ func Stragglers(pkg string) (int, string) {
 	}
 	return n, first
 }
+
+// Quiesce must be called inside a bubble: it returns when every other goroutine of the bubble is blocked for good or gone
+// (what a pipeline has read ahead by then does not depend on the scheduler any more).
+func Quiesce() {
+	// (goroutines asleep at a hook site count as durably blocked: let an hour of virtual time pass first)
+	time.Sleep(time.Hour)
+	synctest.Wait()
+}
